@@ -1,7 +1,8 @@
 ------------------------------ MODULE Trace_MeshOps ------------------------------
 (* Observations of the real mesh utilities (drv_c14) against the Level-A relations of module MeshOps.  *)
 EXTENDS TraceBase, MeshOps
-CheckA(r) ==
+WF(r) == (r.e \in {"Build", "PcBuild", "Cleanup"} /\ r.ok) => (WellFormed(r.in) /\ WellFormed(r.out))
+CheckA0(r) ==
   CASE r.e = "Build" -> r.ok => (SameAttributes(r.in, r.out) /\ SameBagTri(r.in, r.out) /\ NoDupValues(r.out) /\ NoDupPoints(r.out))
     \* Finalize(deduplicate = TRUE) merges points that are identical in every attribute (documented): the SET of points is preserved
     [] r.e = "PcBuild" -> r.ok => /\ SameAttributes(r.in, r.out)
@@ -12,6 +13,7 @@ CheckA(r) ==
     [] r.e = "Cleanup" -> r.ok => CleanupOK(r.in, r.out, r.deg, r.dup, r.unused)
     [] r.e = "Strips" -> r.ok => StripsOK(r.in, IF r.mode = "restart" THEN TrisRestart(r.idx, r.restart) ELSE TrisDegenerate(r.idx), r.mode # "restart")
     [] OTHER -> TRUE
+CheckA(r) == WF(r) /\ CheckA0(r)
 Conforms == ti <= N => CheckA(Recs[ti])
 Spec == ShardInit /\ [][ShardNext]_tvars
 =============================================================================
